@@ -1458,6 +1458,13 @@ package trzsz
 //@ end
 
 //@ func TrzszFilter.wrapOutput
+//@   # the one-shot flag that hides the echo of a drag upload command is dropped by the first chunk that
+//@   # finds it set - before that chunk is even compared with the command - so it cannot linger and
+//@   # swallow later output
+//@   ghostvar flagDropped bool = false
+//@   after io.Reader.Read set flagDropped = false
+//@   after atomic.Bool.Store set flagDropped = true
+//@   before trimVT100 assert [C05] flagDropped
 //@   # C06: a transfer handler is started exactly where the detector returned a trigger for the chunk just
 //@   # read - after the (rewritten) chunk was shown and the trigger recorded - and nowhere else
 //@   before go:TrzszFilter.handleTrzsz assert [C06] trigger != nil && filter.trigger == trigger && \
